@@ -1762,20 +1762,24 @@ class SingleItemDecoder(object):
                 original_position = substrate.tell()
 
                 if length == -1:  # indef length
-                    for value in concreteDecoder.indefLenValueDecoder(
+                    for chunk in concreteDecoder.indefLenValueDecoder(
                             substrate, asn1Spec,
                             tagSet, length, stGetValueDecoder,
                             self, substrateFun, **options):
-                        if isinstance(value, SubstrateUnderrunError):
-                            yield value
+                        if isinstance(chunk, SubstrateUnderrunError):
+                            yield chunk
+                        else:
+                            value = chunk
 
                 else:
-                    for value in concreteDecoder.valueDecoder(
+                    for chunk in concreteDecoder.valueDecoder(
                             substrate, asn1Spec,
                             tagSet, length, stGetValueDecoder,
                             self, substrateFun, **options):
-                        if isinstance(value, SubstrateUnderrunError):
-                            yield value
+                        if isinstance(chunk, SubstrateUnderrunError):
+                            yield chunk
+                        else:
+                            value = chunk
 
                     bytesRead = substrate.tell() - original_position
                     if bytesRead != length:
